@@ -189,6 +189,9 @@ type c03gen struct {
 	tag    string
 	sk     [][]byte // sponsor balance keys of Addr(1), Addr(2)
 	allKey [][]byte
+	// parent = the pre-block storage of the sequence being generated (values that later
+	// transactions of the block like to write back)
+	parent map[string][]byte
 }
 
 func (g *c03gen) value(forBalance bool) []byte {
@@ -227,10 +230,14 @@ func (g *c03gen) action(keys [][]byte, failChance int) string {
 		k := keys[rng.Intn(len(keys))]
 		isBal := bytes.Equal(k, g.sk[0]) || bytes.Equal(k, g.sk[1])
 		switch rng.Intn(10) {
-		case 0, 1, 2:
+		case 0, 1:
 			st = append(st, "r:"+verifh.Hex(k))
-		case 3, 4, 5, 6:
-			st = append(st, "w:"+verifh.Hex(k)+":"+verifh.Hex(g.value(isBal)))
+		case 2, 3, 4, 5, 6:
+			v := g.value(isBal)
+			if pv, ok := g.parent[string(k)]; ok && rng.Chance(50) {
+				v = pv // exactly the value the key had before the block
+			}
+			st = append(st, "w:"+verifh.Hex(k)+":"+verifh.Hex(v))
 		default:
 			st = append(st, "d:"+verifh.Hex(k))
 		}
@@ -350,56 +357,14 @@ func (g *c03gen) tx() *C03Tx {
 
 func (g *c03gen) sequence() []string {
 	rng := g.r.RNG
-	n := 1 + rng.Intn(3)
-	txs := make([]*C03Tx, n)
-	for i := range txs {
-		txs[i] = g.tx()
+	n := 2 + rng.Intn(3)
+	if rng.Chance(15) {
+		n = 1
 	}
-	fee := BigFee(txs[0].Prices, txs[0].Units)
+	// pre-block storage first (so that transactions can write its values back) ...
 	init := map[string][]byte{}
-	for i, k := range g.sk {
-		mine := bytes.Equal(k, BalanceKeyOf(g.bh, txs[0].Sponsor))
-		_ = i
-		if !mine {
-			if rng.Chance(60) {
-				init[string(k)] = PutU64(rng.Pick64())
-			}
-			continue
-		}
-		f64 := uint64(0)
-		fits := fee.IsUint64()
-		if fits {
-			f64 = fee.Uint64()
-		}
-		switch rng.Intn(26) {
-		case 0: // absent
-		case 1:
-			init[string(k)] = PutU64(0)
-		case 2:
-			if fits && f64 > 0 {
-				init[string(k)] = PutU64(f64 - 1)
-			}
-		case 3, 4, 5:
-			init[string(k)] = PutU64(f64) // exactly the fee: balance reaches zero
-		case 6:
-			if f64 < ^uint64(0) {
-				init[string(k)] = PutU64(f64 + 1)
-			}
-		case 7:
-			init[string(k)] = PutU64(^uint64(0))
-		case 8:
-			init[string(k)] = rng.Bytes(7)
-		case 9:
-			init[string(k)] = []byte{}
-		default:
-			init[string(k)] = PutU64(f64 + uint64(rng.Intn(100000)))
-			if f64 > ^uint64(0)-100000 {
-				init[string(k)] = PutU64(^uint64(0))
-			}
-		}
-	}
 	for _, k := range scriptKeys {
-		if rng.Chance(50) {
+		if rng.Chance(65) {
 			mc := int(k[len(k)-2])<<8 | int(k[len(k)-1])
 			switch {
 			case mc == 0:
@@ -408,6 +373,56 @@ func (g *c03gen) sequence() []string {
 				init[string(k)] = rng.Bytes(1 + rng.Intn(8))
 			default:
 				init[string(k)] = PutU64(uint64(rng.Intn(1000)))
+			}
+		}
+	}
+	feeRelative := rng.Chance(35) // ... except the first sponsor's balance in this mode
+	for _, k := range g.sk {
+		if rng.Chance(80) {
+			init[string(k)] = PutU64(uint64(1_000_000 + rng.Intn(1_000_000)))
+			if rng.Chance(10) {
+				init[string(k)] = PutU64(rng.Pick64())
+			}
+		}
+	}
+	g.parent = init
+	txs := make([]*C03Tx, n)
+	for i := range txs {
+		txs[i] = g.tx()
+	}
+	if feeRelative {
+		k := BalanceKeyOf(g.bh, txs[0].Sponsor)
+		fee := BigFee(txs[0].Prices, txs[0].Units)
+		f64 := uint64(0)
+		fits := fee.IsUint64()
+		if fits {
+			f64 = fee.Uint64()
+		}
+		delete(init, string(k))
+		switch rng.Intn(12) {
+		case 0: // absent
+		case 1:
+			init[string(k)] = PutU64(0)
+		case 2:
+			if fits && f64 > 0 {
+				init[string(k)] = PutU64(f64 - 1)
+			}
+		case 3, 4, 5, 6:
+			init[string(k)] = PutU64(f64) // exactly the fee: balance reaches zero
+		case 7:
+			if f64 < ^uint64(0) {
+				init[string(k)] = PutU64(f64 + 1)
+			}
+		case 8:
+			init[string(k)] = PutU64(^uint64(0))
+		case 9:
+			init[string(k)] = rng.Bytes(7)
+		case 10:
+			init[string(k)] = []byte{}
+		default:
+			init[string(k)] = PutU64(f64 + uint64(rng.Intn(100000)))
+			if f64 > ^uint64(0)-100000 {
+				init[string(k)] = PutU64(^uint64(0))
 			}
 		}
 	}
@@ -548,7 +563,7 @@ func RunC03(r *verifh.Run, bh chain.BalanceHandler, tag string) {
 		}
 		pre := c.Visible()
 		o := c.Process(ctx, env, bh, t.Prices, tx, t.Now)
-		r.Emit(l, c.OutcomeString(o))
+		r.Emit(l, c.OutcomeString(o)+" diff="+c.DiffString())
 		post := c.Visible()
 		r.Count("stage:" + o.Stage)
 		r.Count(fmt.Sprintf("nactions:%d", len(t.Actions)))
